@@ -1225,6 +1225,46 @@ class Gen:
         self.script = steps
         self.w.stats.probes["fault_script_started"] += 1
 
+    def start_id_repeat_script(self, actor: str) -> None:
+        """The same content is created alone, dropped, and created again while a NEAR MISS of it (one property value /
+        one child changed) is registered: it must get the id it got the first time."""
+        w = self.w
+        r = self.r("idrep")
+        save = self.cfg["p_ref"]
+        self.cfg["p_ref"] = 0.0
+        s1 = self.spec(r.choice([0, 0, 1]))
+        self.cfg["p_ref"] = save
+        props = [f for f in U.PROP_FIELDS[s1["c"]] if f.init and f.compare]
+        s2 = None
+        if props and r.random() < 0.7:
+            import copy
+
+            f = r.choice(props)
+            s2 = copy.deepcopy(s1)
+            for _ in range(4):
+                s2["p"][f.name] = self.value(f.vt)
+                if s2["p"].get(f.name) != s1["p"].get(f.name):
+                    break
+        if s2 is None or s2 == s1:
+            s2 = self.mutate(s1)
+        if "Vals" in self.cfg["leaf_classes"] and r.random() < 0.4:
+            # values that differ only in where the element boundaries are / in what repr() shows and str() hides
+            o = r.choice(self.cfg["origins"])
+            fld, v1, v2 = r.choice([("ts", ["a, b", "c"], ["a", "b, c"]), ("ts", ["1", "2"], ["1, 2"]), ("ts", ["'a'"], ["a"]), ("ti", [1, 2], [12]), ("tsi", ["k, 1", 1], ["k", 1])])
+            s1 = {"c": "Vals", "p": {"s": "v", fld: v1}, "ch": {}, "o": o}
+            s2 = {"c": "Vals", "p": {"s": "v", fld: v2}, "ch": {}, "o": o}
+            if r.random() < 0.5:
+                s1, s2 = s2, s1
+        a, b, c = self.out() + "i1", self.out() + "i2", self.out() + "i3"
+        self.script = [
+            lambda ac: {"op": "construct", "spec": s1, "out": a},
+            lambda ac: {"op": "drop", "h": a} if a in w.handles else None,
+            lambda ac: {"op": "gc"},
+            lambda ac: {"op": "construct", "spec": s2, "out": b},
+            lambda ac: {"op": "construct", "spec": s1, "out": c},
+        ]
+        w.stats.probes["id_repeat_script_started"] += 1
+
     def start_eq_history_script(self, actor: str) -> None:
         """Two trees that differ only in a grandchild's origin are compared, both die, the first is built again and
         duplicated: ids (h, h_1) are handed out again to other objects, comparisons start afresh."""
@@ -1345,6 +1385,9 @@ class Gen:
             return
         if self.cfg["prop"] in ("C01", "C03", "C14") and r.random() < 0.35:
             self.start_wide_script(actor)
+            return
+        if self.cfg["prop"] in ("C03", "C14") and r.random() < 0.3:
+            self.start_id_repeat_script(actor)
             return
         if self.cfg["prop"] in ("C14", "C10") and r.random() < 0.3:
             self.start_eq_history_script(actor)
